@@ -183,15 +183,16 @@ package parser
 //@   ensures {C17,C09,C14} forall(i, 0, len(r), wfIntf(r[i]) && isIface(r[i].intf) && inFile(p, r[i].intf))
 //@   ensures {C09} forall(i, 0, len(r), len(r[i].opts.SkipFields) == len(p.opts.SkipFields) && r[i].opts.PreProcess == p.opts.PreProcess && r[i].opts.PostProcess == p.opts.PostProcess)
 //@   ensures {C17} err != nil ==> r == nil
-//@   atcall Nanoid: {C17} objName(obj) == intfName || isTarget
-//@   atcall Nanoid: {C17} isIface(obj) && inFile(p, obj)
-//@   atcall Nanoid: {C09} opts.ExactCase == toggleAfter(p.opts.ExactCase, notations, option.ValidOpsIntf, len(notations), "case", "case:off")
-//@   atcall Nanoid: {C09} opts.Getter == toggleAfter(p.opts.Getter, notations, option.ValidOpsIntf, len(notations), "getter", "getter:off")
-//@   atcall Nanoid: {C09} opts.Stringer == toggleAfter(p.opts.Stringer, notations, option.ValidOpsIntf, len(notations), "stringer", "stringer:off")
-//@   atcall Nanoid: {C09} opts.Typecast == toggleAfter(p.opts.Typecast, notations, option.ValidOpsIntf, len(notations), "typecast", "typecast:off")
-//@   atcall Nanoid: {C09,C08} opts.Style == styleAfter(p.opts.Style, notations, option.ValidOpsIntf, len(notations))
-//@   atcall Nanoid: {C09,C04} opts.Rule == ruleAfter(p.opts.Rule, notations, option.ValidOpsIntf, len(notations))
-//@   atcall append: {C09,C17} entry != nil && entry.intf == obj && sixEqual(entry.opts, *opts) && entry.marker == marker
+//@   atcall append: {C17} objName(obj) == intfName || isTarget
+//@   atcall append: {C17} isIface(obj) && inFile(p, obj)
+//@   atcall append: {C09} opts.ExactCase == toggleAfter(p.opts.ExactCase, notations, option.ValidOpsIntf, len(notations), "case", "case:off")
+//@   atcall append: {C09} opts.Getter == toggleAfter(p.opts.Getter, notations, option.ValidOpsIntf, len(notations), "getter", "getter:off")
+//@   atcall append: {C09} opts.Stringer == toggleAfter(p.opts.Stringer, notations, option.ValidOpsIntf, len(notations), "stringer", "stringer:off")
+//@   atcall append: {C09} opts.Typecast == toggleAfter(p.opts.Typecast, notations, option.ValidOpsIntf, len(notations), "typecast", "typecast:off")
+//@   atcall append: {C09,C08} opts.Style == styleAfter(p.opts.Style, notations, option.ValidOpsIntf, len(notations))
+//@   atcall append: {C09,C04} opts.Rule == ruleAfter(p.opts.Rule, notations, option.ValidOpsIntf, len(notations))
+//@   atcall append: {C09,C17} entry != nil && entry.intf == obj && sixEqual(entry.opts, *opts)
+//@   atcall append: {C17,C13,C03} isMarker(entry.marker)
 //@   loop 1 invariant $k <= scopeLen(scope) && fresh(entries) && sameOld(entries)
 //@   loop 1 invariant forall(i, 0, len(entries), wfIntf(entries[i]) && isIface(entries[i].intf) && inFile(p, entries[i].intf))
 //@   loop 1 invariant forall(i, 0, len(entries), len(entries[i].opts.SkipFields) == len(p.opts.SkipFields) && entries[i].opts.PreProcess == p.opts.PreProcess && entries[i].opts.PostProcess == p.opts.PostProcess)
